@@ -14,8 +14,8 @@
   adjacent de-duplication, inverse index), the split of the inverse index at
   `len(sample1)`, the one-hot vectors, the weight normalisation (lcm of the row
   sums / row sum), `np.dot(v, M)`, the distance sum, `norm.fit` (mean, population
-  standard deviation) and `norm.ppf(q, mu, std)` (= `z*std + mu` when `std > 0`,
-  NaN otherwise — a comparison with NaN is false).
+  standard deviation) and the threshold `norm.ppf(1 - alpha) * std + mu` (defined also
+  when all sampled distances coincide, `std = 0`, where it equals `mu`).
 
   Inputs the real code rejects (modelled as `none` / `Out.rejected`): `k = 0` or
   `k >` number of distinct pooled points (sklearn raises `ValueError`), `update`
@@ -180,7 +180,7 @@ structure State (α : Type) where
 
 inductive Out (α : Type) where
   | rejected
-  | ok (dist : α) (theta : Option α) (knnOk : Bool)
+  | ok (dist : α) (theta : α) (knnOk : Bool)
 
 /-- `v_ref[π]`: what `np.random.permutation(v_ref)` returns when it draws the index permutation `π` -/
 def permute (v : List Bool) (π : List Nat) : List Bool := π.map (fun i => v.getD i false)
@@ -211,14 +211,11 @@ def stdPop (ds : List α) : α :=
   let m := mean ds
   sqrt (sumL (ds.map (fun d => (d - m) * (d - m))) / ((ds.length : Nat) : α))
 
-/-- `norm.ppf(1 - alpha, mu, std)`: `z*std + mu` when `std > 0`, NaN (`none`) otherwise -/
-def threshold (z : α) (ds : List α) : Option α :=
-  if ((0 : Nat) : α) < stdPop ds then some (z * stdPop ds + mean ds) else none
+/-- `drift_threshold = norm.ppf(1 - alpha) * std + mu` (in this operation order) -/
+def threshold (z : α) (ds : List α) : α := z * stdPop ds + mean ds
 
-/-- `d_act > theta_drift` (false when `theta_drift` is NaN) -/
-def exceeds (d : α) : Option α → Bool
-  | some θ => decide (θ < d)
-  | none => false
+/-- `d_act > theta_drift` -/
+def exceeds (d θ : α) : Bool := decide (θ < d)
 
 /-- `NNDVI.update(X)`; `adj` = the k-NN graph of the pooled points, `perms` = the
     `sampling_times` index permutations drawn -/
